@@ -48,6 +48,11 @@ struct Arena {
 };
 extern Arena g_arena;
 
+// A source region of 4 GiB + 1 MiB (lazily mapped, never committed beyond the bytes written into it; fixed address): the one place
+// where a caller can truthfully declare avail_in close to 2^32.  Everything behind the bytes the caller wrote reads as zero.
+uint8_t *giant_source(size_t used);   // returns the base; `used` bytes at its start will be written by the caller
+void giant_source_reset();            // give the touched pages back (run_begin)
+
 // Fault catching.  Usage:
 //   FaultInfo fi; if (GUARDED_CALL(fi, { ...library call... })) { fault happened, fi filled }
 struct GuardCtx {
